@@ -97,6 +97,11 @@ func checkC04(sc *Scenario, h *History) []Violation {
 			d = findEvent(firstTag)
 		}
 		for _, r := range u.Replies {
+			if serverClosed && w.Short && r.Start == replies[len(replies)-1].Start && r.Code/100 >= 4 {
+				// The server gave up with commands unanswered: its last reply may be the
+				// closing notice, which the walk attributes to the next command.
+				continue
+			}
 			text := strings.Join(r.Lines, " ")
 			for _, m := range echoedRe.FindAllString(text, -1) {
 				if strings.HasPrefix(m, "stale-") {
@@ -127,6 +132,24 @@ func checkC04(sc *Scenario, h *History) []Violation {
 	xferFirst := ""
 	for i := range w.Units {
 		u := &w.Units[i]
+		// a message the backend was handed in full and decided on is answered
+		if len(u.Replies) == 0 {
+			tag := ""
+			switch {
+			case u.Kind == "body" && u.Complete:
+				tag = tagRe.FindString(string(u.Msg))
+			case u.Kind == "cmd" && u.Verb == "BDAT" && u.HasSize && u.Last:
+				tag = xferFirst
+				if tag == "" && u.Size > 0 && i+1 < len(w.Units) && w.Units[i+1].Kind == "payload" {
+					tag = tagRe.FindString(string(w.Units[i+1].Msg))
+				}
+			}
+			if tag != "" {
+				if d := findEvent(tag); d != nil && d.Done && d.SawEOF {
+					v("C04.missing-reply", "message %s was delivered to the backend in full (Data returned %q) but no final reply was ever sent", tag, d.Res)
+				}
+			}
+		}
 		switch {
 		case u.Kind == "body" && u.Complete && len(u.Replies) > 0:
 			tag := tagRe.FindString(string(u.Msg))
